@@ -287,15 +287,19 @@ def _cell_decl(c: dict, nm: dict) -> str:
     return inner + f"\ntype {T} struct {{\n\t{a} int\n\t{field}\n}}\n\nfunc ({T}) {nm['mark']}() {{}}\n"
 
 
-def _api_expr(api: str, v: str, nm: dict, d: str) -> str:
-    """Go expression of type string observing v (an expression of type any) through the API.
+def _api_stmts(api: str, v: str, nm: dict, d: str, ind: str = "\t") -> str:
+    """Go statements appending to `out` (a string variable) what the API shows of v (type any).
     d = qualifier of package deep ("" inside deep, "deep." elsewhere)."""
     if api == "typeof":
-        return f'{d}Describe(reflect.TypeOf({v})) + {d}Has(reflect.TypeOf({v}), "{nm["alpha"]}")'
+        return f'{ind}out += {d}Describe(reflect.TypeOf({v})) + {d}Has(reflect.TypeOf({v}), "{nm["alpha"]}")\n'
     if api == "valueof":
-        return f'{d}Describe(reflect.ValueOf({v}).Type()) + {d}Has(reflect.ValueOf({v}).Type(), "{nm["alpha"]}")'
+        return f'{ind}out += {d}Describe(reflect.ValueOf({v}).Type()) + {d}Has(reflect.ValueOf({v}).Type(), "{nm["alpha"]}")\n'
     if api == "marshal":
-        return f"func() string {{ b, err := json.Marshal({v}); if err != nil {{ return err.Error() }}; return string(b) }}()"
+        return (f"{ind}if b, err := json.Marshal({v}); err != nil {{\n{ind}\tout += err.Error()\n{ind}}} else {{\n"
+                f"{ind}\tout += string(b)\n{ind}}}\n")
+    if api == "unmarshal":
+        return (f'{ind}if err := json.Unmarshal([]byte(`{{"{nm["alpha"]}": 41}}`), {v}); err != nil {{\n'
+                f"{ind}\tout += err.Error()\n{ind}}}\n")
     raise ValueError(api)
 
 
@@ -310,19 +314,11 @@ def gen_cells_program(cells: list) -> dict:
         src[decl].append(f"// cell {n}: {json.dumps({k: c[k] for k in ('decl', 'site', 'via', 'cons', 'tshape', 'api')})}\n" + _cell_decl(c, nm))
         q = "" if decl == site else decl + "."           # qualifier of the declaring package at the site
         T = q + nm["T"]
-        if ts == "defined":
-            val = f"{T}(3)"
-        else:
-            val = f"{T}{{{nm['alpha']}: 1}}"
+        val = f"{T}(3)" if ts == "defined" else f"{T}{{{nm['alpha']}: 1}}"
         dq_site = "" if site == "deep" else "deep."
-        body = [f"\tx := {val}\n"]
-        # the construct
-        if api == "unmarshal":
-            base = "&x"
-        else:
-            base = "x"
-        pre = ""
-        if cons == "value":
+        body = [f"\tx := {val}\n\tout := \"\"\n"]
+        base = "&x" if api == "unmarshal" else "x"
+        if cons in ("value", "variadic", "field"):
             arg = base
         elif cons == "ptr":
             arg = "&x"
@@ -332,47 +328,39 @@ def gen_cells_program(cells: list) -> dict:
             arg = f"[1]{T}{{x}}"
         elif cons == "map":
             arg = f'map[string]{T}{{"k": x}}'
-        elif cons == "variadic":
-            arg = base
-        elif cons == "field":
-            src[site].append(f"type {nm['holder']} struct {{\n\tDest any\n\tpad int\n}}\n")
-            pre = f"\tvar h {nm['holder']}\n\th.Dest = {base}\n"
-            arg = "h.Dest"
-        elif cons == "iface":
+        elif cons == "iface-any":
+            body.append(f"\tvar i any = {base}\n")
+            arg = "i"
+        elif cons == "iface-method":
             src[site].append(f"type {nm['marker']} interface{{ {nm['mark']}() }}\n")
-            pre = f"\tvar i {nm['marker']} = {base}\n"
+            body.append(f"\tvar i {nm['marker']} = {base}\n")
             arg = "i"
         else:
             raise ValueError(cons)
-        body.append(pre)
-        data = f'`{{"{nm["alpha"]}": 41}}`'
         if via == "direct":
-            if api == "unmarshal":
-                body.append(f"\terr := json.Unmarshal([]byte({data}), {arg})\n\t_ = err\n\treturn strconv.Itoa(x.{nm['alpha']})\n")
-            else:
-                body.append("\treturn " + _api_expr(api, arg, nm, dq_site) + "\n")
+            body.append(_api_stmts(api, arg, nm, dq_site))
         else:
             hq = "" if api_pkg == site else api_pkg + "."
             hname = nm["h"] if api_pkg == site else nm["H"]
             dq_api = "" if api_pkg == "deep" else "deep."
             if cons == "variadic":
-                if api == "unmarshal":
-                    raise ValueError("unmarshal x variadic")
                 helper = (f"func {hname}(first any, vs ...any) string {{\n\tout := \"\"\n\tfor _, v := range vs {{\n"
-                          f"\t\tout += {_api_expr(api, 'v', nm, dq_api)}\n\t}}\n\treturn out\n}}\n")
+                          + _api_stmts(api, "v", nm, dq_api, "\t\t") + "\t}\n\treturn out\n}\n")
                 call = f"{hq}{hname}(1, {arg})"
-            elif api == "unmarshal":
-                helper = (f"func {hname}(data string, v any) string {{\n\tif err := json.Unmarshal([]byte(data), v); err != nil {{\n"
-                          f"\t\treturn err.Error()\n\t}}\n\treturn \"\"\n}}\n")
-                call = f"{hq}{hname}({data}, {arg})"
+            elif cons == "field":
+                hold, ex = nm["holder"], nm["h"] + "exec"
+                helper = (f"type {hold} struct {{\n\tDest any\n\tpad int\n}}\n\n"
+                          f"func {hname}(v any) string {{\n\tvar h {hold}\n\th.Dest = v\n\treturn {ex}(h)\n}}\n\n"
+                          f"func {ex}(h {hold}) string {{\n\tout := \"\"\n" + _api_stmts(api, "h.Dest", nm, dq_api) + "\treturn out\n}\n")
+                call = f"{hq}{hname}({arg})"
             else:
-                helper = f"func {hname}(v any) string {{\n\treturn {_api_expr(api, 'v', nm, dq_api)}\n}}\n"
+                helper = f"func {hname}(v any) string {{\n\tout := \"\"\n" + _api_stmts(api, "v", nm, dq_api) + "\treturn out\n}\n"
                 call = f"{hq}{hname}({arg})"
             src[api_pkg].append(helper)
-            if api == "unmarshal":
-                body.append(f"\ts := {call}\n\treturn s + strconv.Itoa(x.{nm['alpha']})\n")
-            else:
-                body.append(f"\treturn {call}\n")
+            body.append(f"\tout += {call}\n")
+        if api == "unmarshal":
+            body.append(f"\tout += strconv.Itoa(x.{nm['alpha']})\n")
+        body.append("\treturn out\n")
         rname = nm["run"] if site == "main" else nm["Run"]
         src[site].append(f"func {rname}() string {{\n{''.join(body)}}}\n")
         mains.append((n, rname if site == "main" else f"{site}.{rname}"))
@@ -385,6 +373,15 @@ def gen_cells_program(cells: list) -> dict:
               "\n".join(src["lib"]))
     deep_go = DEEP_PRELUDE + "\n" + "\n".join(src["deep"])
     return {"main.go": main_go, "lib/lib.go": lib_go, "deep/deep.go": deep_go}
+
+
+def cell_names_in(line: str) -> set:
+    return set(re.findall(r"[Cc]\d{3}[A-Za-z0-9_]*", line))
+
+
+def cell_typearg_names(n: int) -> set:
+    nm = _cell_names(n)
+    return {nm["In"], nm["gamma"], nm["p"].lower() + "hidden"}
 
 
 def split_cell_output(stdout: str) -> dict:
